@@ -85,11 +85,27 @@ def answer (kv : KV) : String :=
                     (plA && op = "clone" && decide (1000 ≤ x)))
       | _ => true
     let simple (r : List Ev × Res) : String := fmt (showRes r.2) (canonEvs (r.1.filter visible)) r.2.ids
+    -- results of type `()` (zero-sized, no destructor): same events, the results' drops do not exist
+    let visibleU (e : Ev) : Bool :=
+      match e with
+      | .drop x => visible e && !decide (1000 ≤ x)
+      | _ => true
+    let simpleU (r : List Ev × Res) : String := fmt (showRes r.2) (canonEvs (r.1.filter visibleU)) r.2.ids
     match op, form, form2 with
+    | "generate_unit", _, _ => simpleU (generate f n)
+    | "boxed_generate_unit", _, _ => simpleU (generate f n)
+    | "map_unit", some fm, _ => simpleU (mapOp fm f xs)
+    | "zip_unit", some fa, some fb' => simpleU (zipOp fa fb' (!plA) (!plB) f xs ys)
     | "generate", _, _ => simple (generate f n)
     | "default", _, _ => simple (defaultOp f n)
     | "map", some fm, _ => simple (mapOp fm f xs)
     | "clone", _, _ => simple (cloneOp fc xs)
+    | "clone_from", _, _ =>
+      match cloneFromOp fc xs ys bad with
+      | some r =>
+        let natsC (l : List Nat) := ":".intercalate (l.map toString)
+        s!"res={showRes r.res}/final:{natsC r.final} ev={",".intercalate (canonEvs r.ev ++ ["|"] ++ canonEvs (r.final.map .drop))} out=[]"
+      | none => "unknown"
     | "zip", some fa, some fb' => simple (zipOp fa fb' (!plA) (!plB) f xs ys)
     | "fold", some fm, _ =>
       let r := foldOp fm fb xs
